@@ -348,7 +348,9 @@ pub fn run(suite: &str, thorough: bool, seed: u64, shard: usize, nshards: usize,
     let mut em = Emitter { suite: suite.to_owned(), n: 0, emit };
     let mut rng = Rng::new(seed.wrapping_mul(0x1000_0000_01B3).wrapping_add(shard as u64));
     // random suites: each shard runs its share; exhaustive suites: indices congruent to the shard
-    let share = |total: usize| -> usize { (total + nshards - 1) / nshards };
+    // the thorough tier multiplies every random suite (VERIF_THOROUGH_SCALE, default 4)
+    let scale: usize = if thorough { std::env::var("VERIF_THOROUGH_SCALE").ok().and_then(|v| v.parse().ok()).unwrap_or(4) } else { 1 };
+    let share = |total: usize| -> usize { (total * scale + nshards - 1) / nshards };
     let mine = |idx: usize| -> bool { idx % nshards == shard };
     let _ = &mine;
     match suite {
